@@ -41,6 +41,10 @@
 
 #include "osdep_stdio.h"
 #include "matrixsslImpl.h"
+
+#ifdef MATRIXSSL_VERIF
+matrixVerifHook_t matrixVerifHook = NULL;
+#endif
 /******************************************************************************/
 
 static const char copyright[] =
